@@ -9,26 +9,44 @@
 (***************************************************************************)
 EXTENDS Skeleton, Sched, Json, IOUtils, TLC
 
-CONSTANT Cap
+CONSTANTS Cap,        \* channel capacity per ordered pair (0 = unbounded)
+          RecordHist  \* TRUE: keep the schedule taken (for export to the replay driver)
 
 CFG == JsonDeserialize(IOEnv.CFG)
 Cfg == [n |-> CFG.n, pe |-> CFG.pe, po |-> CFG.po, circ |-> CFG.circ]
 PartySet == 0 .. (Cfg.n - 1)
 P == [p \in PartySet |-> Program(Cfg, p)]
 
-VARIABLES pst, net, bad
-vars == << pst, net, bad >>
+VARIABLES pst, net, bad, leak, hist
+vars == << pst, net, bad, leak, hist >>
+view == << pst, net, bad, leak >>
 
 Init == /\ pst = [p \in PartySet |-> FreshPst(P, p, 1)]
         /\ net = EmptyNet(PartySet)
         /\ bad = FALSE
+        /\ leak = FALSE
+        /\ hist = << >>
+
+\* C05: a message to a party that has finished input processing (its program
+\* counter is in the output phase) must be output opening material addressed
+\* to an output party; opening material never goes to a non-output party
+OutStart == [p \in PartySet |-> OutputStart(Cfg, p)]
+Opening(ph) == ph \in {"output wire shares", "lambda"}
+Leaks(p, op) ==
+  \/ pst[op.q].g >= OutStart[op.q] /\ ~(Opening(op.ph) /\ InPo(Cfg, op.q))
+  \/ Opening(op.ph) /\ ~InPo(Cfg, op.q)
 
 Step(p, c) ==
   /\ Enabled(P, pst, net, Cap, p, c)
   /\ LET op == HeadOp(P, pst, p, c) IN
        /\ net' = NetAfter(net, p, op)
        /\ bad' = (bad \/ ~RecvMatches(net, p, op))
+       /\ leak' = (leak \/ (op.d = "S" /\ Leaks(p, op)))
   /\ pst' = [pst EXCEPT ![p] = Advance(P, pst, p, c)]
+  \* schedule step code: party * 100 + (10 if receive) + peer
+  /\ hist' = IF RecordHist
+             THEN Append(hist, p * 100 + (IF HeadOp(P, pst, p, c).d = "R" THEN 10 ELSE 0) + HeadOp(P, pst, p, c).q)
+             ELSE hist
 
 AllDone == \A p \in PartySet : Done(P, pst, p)
 
@@ -37,8 +55,14 @@ Next == \/ \E p \in PartySet : \E c \in 1..(IF Done(P, pst, p) THEN 0 ELSE Len(G
 
 Spec == Init /\ [][Next]_vars /\ WF_vars(Next)
 
+\* for -simulate: no stuttering at the end, so each trace ends when all are done
+StepNext == \E p \in PartySet : \E c \in 1..(IF Done(P, pst, p) THEN 0 ELSE Len(Group(P, pst, p))) : Step(p, c)
+SimSpec == Init /\ [][StepNext]_vars
+Export == AllDone => PrintT("REPLAY " \o ToJson(hist))
+
 -----------------------------------------------------------------------------
 FifoMatch == ~bad
+OutputPrivacy == ~leak
 
 \* within a group at most one chain talks to a given peer in a given direction
 \* at any time => at most one send and one receive outstanding per peer
